@@ -705,6 +705,21 @@ func ruleTabCLI(c *Ctx, r *Rep) {
 						}
 						walk(x.X)
 					}
+				case *ssa.Parameter:
+					// the planning call sits in a helper: the word is what the helper's callers hand in
+					pf := x.Parent()
+					for i, prm := range pf.Params {
+						if prm != x {
+							continue
+						}
+						for _, caller := range c.Funcs {
+							for _, site := range callsIn(caller) {
+								if site.Common().StaticCallee() == pf && i < len(site.Common().Args) {
+									walk(site.Common().Args[i])
+								}
+							}
+						}
+					}
 				case *ssa.Call:
 					// the word is assembled by a module helper: follow what it returns
 					if g := x.Call.StaticCallee(); g != nil && c.InModule(g) && g.Blocks != nil && g.Signature.Results().Len() == 1 {
